@@ -37,3 +37,55 @@ pub(crate) fn cex_skip_len_le_buf() {
         assert!(l <= n);
     }
 }
+
+/// Executable reference for the first chunk of a possibly compressed name
+/// (RFC 1035 4.1.4 / 3.1), written independently of the code.
+fn ref_skip(b: &[u8]) -> Option<usize> {
+    let mut i = 0usize;
+    loop {
+        if i >= b.len() { return None; }
+        let o = b[i];
+        if o >= 192 { return if i + 1 < b.len() && i + 1 <= 255 { Some(i + 2) } else { None }; }
+        if o > 63 { return None; }
+        if o == 0 { return if i + 1 <= 255 { Some(i + 1) } else { None }; }
+        i += o as usize + 1;
+    }
+}
+
+/// Reference with at most K labels before the terminator; Err(()) = more than K labels.
+const K: usize = 6;
+fn ref_skip_k(b: &[u8]) -> Result<Option<usize>, ()> {
+    let mut i = 0usize;
+    let mut k = 0usize;
+    while k <= K {
+        if i >= b.len() { return Ok(None); }
+        let o = b[i];
+        if o >= 192 { return Ok(if i + 1 < b.len() && i + 1 <= 255 { Some(i + 2) } else { None }); }
+        if o > 63 { return Ok(None); }
+        if o == 0 { return Ok(if i + 1 <= 255 { Some(i + 1) } else { None }); }
+        i += o as usize + 1;
+        k += 1;
+    }
+    Err(())
+}
+
+/// BOUNDED stand-in for skip_compressed_name: every buffer of up to BIG octets
+/// whose first chunk has at most K labels (long labels reach the 255-octet
+/// boundary within that bound).  Used when the Verus proof cannot be replayed
+/// on restructured code; never counted as proof.
+const BIG: usize = 258;
+#[kani::proof]
+#[kani::unwind(9)]
+pub(crate) fn bnd_skip_matches_ref() {
+    let buf: [u8; BIG] = kani::any();
+    let n: usize = kani::any();
+    kani::assume(n <= BIG);
+    let want = ref_skip_k(&buf[..n]);
+    kani::assume(want.is_ok());
+    let got = Name::skip_compressed(&buf[..n]);
+    match (got, want.unwrap()) {
+        (Ok(a), Some(b)) => assert!(a == b),
+        (Err(_), None) => (),
+        _ => assert!(false, "acceptance differs"),
+    }
+}
